@@ -975,6 +975,125 @@ def r96(ctx):
         raise AnalysisError("R-9.6: no extension propagate call found in extender")
 
 
+def r914(ctx):
+    """Acceptance gates of the shooting move. Every `return True, ...` of shoot() lies behind
+    (must-pass-through on the CFG, alternatives allowed where the code has them):
+      G1 the kick was accepted; G2 the backward half reached an allowed start side (shoot_backwards
+      returned True); G3 the forward half ended at an interface (engine.propagate's success flag);
+      G4 the path does not touch the left side unless the ensemble allows a left start;
+      G5 the middle interface was crossed, unless the ensemble allows both start sides."""
+    rid = "R-9.14"
+    tree = ctx.tree
+    f = tree.func(TIS, "shoot")
+    fl = flow_of(f)
+    cfg = fl.cfg
+    accs = [r for r in walk_local(f) if isinstance(r, ast.Return) and isinstance(r.value, ast.Tuple) and r.value.elts and isinstance(r.value.elts[0], ast.Constant) and r.value.elts[0].value is True]
+    if not accs:
+        raise AnalysisError("R-9.14: shoot has no accepting return")
+
+    def from_call(e, callee, unpack_index=None):
+        """is e a call of `callee`, or a name one of whose definitions is (an unpacking of) such a call?"""
+        if isinstance(e, ast.Call) and last_name(e) == callee:
+            return True
+        if isinstance(e, ast.Name):
+            for d in fl.defs:
+                if d.path == e.id and d.value is not None and isinstance(d.value, ast.Call) and last_name(d.value) == callee:
+                    if unpack_index is None or d.kind != "unpack" or tuple(d.index) == (unpack_index,):
+                        return True
+        return False
+
+    def is_set_of(e, consts=None, name=None):
+        if isinstance(e, ast.Call) and last_name(e) == "set" and len(e.args) == 1:
+            a = e.args[0]
+            if consts is not None and isinstance(a, (ast.Tuple, ast.List, ast.Set)):
+                return {x.value for x in a.elts if isinstance(x, ast.Constant)} == set(consts)
+            if name is not None:
+                return isinstance(a, ast.Name)
+        if consts is not None and isinstance(e, ast.Set):
+            return {x.value for x in e.elts if isinstance(x, ast.Constant)} == set(consts)
+        return False
+
+    def ci_part(e):
+        """which part of check_interfaces' result an expression denotes: 'startend' (the [:2] slice),
+        'crossed' ([-1][1] / [3][1] / cross[1]) or None"""
+        if isinstance(e, ast.Subscript):
+            b = e.value
+            if isinstance(b, ast.Call) and last_name(b) == "check_interfaces" and isinstance(e.slice, ast.Slice) and e.slice.lower is None and isinstance(e.slice.upper, ast.Constant) and e.slice.upper.value == 2:
+                return "startend"
+            if isinstance(e.slice, ast.Constant) and e.slice.value == 1:
+                if isinstance(b, ast.Subscript) and isinstance(b.slice, (ast.Constant, ast.UnaryOp)) and ast.unparse(b.slice) in ("-1", "3") and isinstance(b.value, ast.Call) and last_name(b.value) == "check_interfaces":
+                    return "crossed"
+                if isinstance(b, ast.Name) and from_call(b, "check_interfaces", 3):
+                    return "crossed"
+        return None
+
+    def classify(e, t):
+        """(label, truth) of one branch fact"""
+        if isinstance(e, ast.Compare) and len(e.ops) == 1 and isinstance(e.ops[0], (ast.In, ast.NotIn)) and isinstance(e.left, ast.Constant) and e.left.value == "L":
+            truth = t if isinstance(e.ops[0], ast.In) else not t
+            rhs = e.comparators[0]
+            if ci_part(rhs) == "startend":
+                return ("touches_left", truth)
+            if is_set_of(rhs, name=True) or isinstance(rhs, ast.Name):
+                return ("left_allowed", truth)
+        if isinstance(e, ast.Compare) and len(e.ops) == 1 and isinstance(e.ops[0], (ast.Eq, ast.NotEq)):
+            sides = [e.left, e.comparators[0]]
+            if any(is_set_of(x, consts=("R", "L")) for x in sides) and any(is_set_of(x, name=True) for x in sides):
+                return ("both_sides", t if isinstance(e.ops[0], ast.Eq) else not t)
+            if any(isinstance(x, ast.Constant) and x.value == "M" for x in sides) and any(
+                    (isinstance(x, ast.Name) and from_call(x, "check_interfaces", 2))
+                    or (isinstance(x, ast.Subscript) and isinstance(x.slice, ast.Constant) and x.slice.value == 2 and isinstance(x.value, ast.Call) and last_name(x.value) == "check_interfaces") for x in sides):
+                return ("crossed", t if isinstance(e.ops[0], ast.Eq) else not t)
+        if ci_part(e) == "crossed":
+            return ("crossed", t)
+        if from_call(e, "shoot_backwards"):
+            return ("back", t)
+        if isinstance(e, ast.Name) and from_call(e, "check_kick"):
+            return ("kick", t)
+        if isinstance(e, ast.Name) and from_call(e, "propagate", 0):
+            return ("forw", t)
+        return (None, t)
+
+    labelled = {}
+    for n in cfg.nodes:
+        if n.kind != "branch":
+            continue
+        for e, t in n.facts:
+            if isinstance(e, ast.BoolOp) and isinstance(e.op, ast.And) and not t:
+                # not (A and B): the rejection `A and B` was not taken
+                parts = {classify(v.operand, False) if isinstance(v, ast.UnaryOp) and isinstance(v.op, ast.Not) else classify(v, True) for v in e.values}
+                if parts == {("left_allowed", False), ("touches_left", True)}:
+                    labelled.setdefault(("left_ok", True), set()).add(n.id)
+                if parts == {("both_sides", False), ("crossed", False)}:
+                    # not (one start side only and not crossed)
+                    labelled.setdefault(("cross_ok", True), set()).add(n.id)
+                continue
+            lab, tr = classify(e, t)
+            if lab is not None:
+                labelled.setdefault((lab, tr), set()).add(n.id)
+    # a single-conjunct form of G4:  if "L" in ...[:2] (under a branch where left is not allowed) etc.
+    gates = [
+        ("G1 the kick was accepted", [("kick", True)], "a shooting point whose velocity kick was rejected (Metropolis / outside the interfaces) goes on to produce an accepted path"),
+        ("G2 the backward half ended on an allowed start side", [("back", True)], "a path whose backward half did not reach the allowed start side within the budget is accepted: it does not start where its ensemble requires"),
+        ("G3 the forward half ended at an interface", [("forw", True)], "a path whose forward half ran out of frames inside the interfaces is accepted: it does not end outside the interfaces"),
+        ("G4 the path touches the left side only if the ensemble allows a left start", [("left_ok", True), ("touches_left", False), ("left_allowed", True)], "a [0-]-type path that hit the left interface is accepted"),
+        ("G5 the middle interface was crossed (unless both start sides are allowed)", [("crossed", True), ("both_sides", True), ("cross_ok", True)], "a path that never crossed its ensemble's interface is accepted: it does not belong to the ensemble"),
+    ]
+    for r in accs:
+        rn = cfg.node_of(r)
+        for name, alts, breaks in gates:
+            nodes = set()
+            for a in alts:
+                nodes |= labelled.get(a, set())
+            if not nodes:
+                ctx.bad(rid, r, f"shoot accepts without the test `{name}`: {breaks}", construct=f"shoot: acceptance gate {name.split(' ')[0]} missing")
+                continue
+            if cfg.reaches(cfg.entry, rn, avoid=[cfg.nodes[x] for x in nodes], labels_excluded=("exc",)):
+                ctx.bad(rid, r, f"shoot can reach its accepting return without passing `{name}`: {breaks}", construct=f"shoot: acceptance gate {name.split(' ')[0]} bypassed")
+            else:
+                ctx.ok(rid, r, f"shoot: every path to acceptance passes {name}")
+
+
 def run(ctx):
     ctx.rule("R-9.6", "a wire-fencing extension whose success flag is discarded is covered by a length test that rejects every truncated extension (linear arithmetic on lengths)", floor=1)
     ctx.rule("R-9.7", "positional role agreement in the move functions: (start, end, middle, cross), (success, status), (shooting_point, idx, dek), (n_frames, new_segment), (accept, paths, status) are unpacked / passed at the callee's positions", floor=20)
@@ -998,6 +1117,11 @@ def run(ctx):
     ctx.attempt(r98, ctx)
     ctx.attempt(r910, ctx)
     ctx.attempt(r911, ctx)
+    ctx.rule("R-9.14", "acceptance gates of the shooting move: kick accepted, backward half on an allowed side, forward half at an interface, left side only if allowed, middle interface crossed unless both sides allowed - must-pass-through on the CFG", floor=5)
+    ctx.attempt(r914, ctx)
+    ctx.rule("R-9.15", "the length-based Metropolis rule is not switched off for paths reloaded at a restart: no branch on the restart tag (shared with C06 R-6.13)", floor=1)
+    from .shared import restart_tag_not_tested
+    ctx.attempt(restart_tag_not_tested, ctx, "R-9.15", ": a shooting move from a restarted path skips the random length budget, so a trial is accepted although the drawn number exceeds n_old / n_new")
     ctx.rule("R-9.13", "a path accepted into an ensemble has non-zero weight there: the entries of calc_cv_vector use the same inclusive crossing convention as the acceptance test (shared with C10 R-10.4)", floor=10)
     from . import c10
     from .shared import RuleProxy
@@ -1012,6 +1136,14 @@ def run(ctx):
 
 
 VARIANTS = [
+    B("c09-restarted-paths-exempt-from-length-rule", TIS, '    if path.get_move() == "ld" or ens_set["tis_set"].get(', '    if path.get_move() in ("ld", "re") or ens_set["tis_set"].get(', "R-9.15", control=True, why="seeded C09_g"),
+    B("c09-no-crossing-check", TIS, "    elif not trial_path.check_interfaces(interfaces)[-1][1]:\n        # No, we did not cross the middle interface:", "    elif False:\n        # No, we did not cross the middle interface:", "R-9.14", control=True),
+    B("c09-forward-failure-ignored", TIS, "    if not success_forw:\n        trial_path.status = \"FTL\"", "    if not success_forw and False:\n        trial_path.status = \"FTL\"", "R-9.14"),
+    B("c09-kick-ignored", TIS, "    if not kick:\n        return False, trial_path, trial_path.status\n    # OK: kick was either", "    if not kick and dek is None:\n        return False, trial_path, trial_path.status\n    # OK: kick was either", "R-9.14"),
+    B("c09-left-touch-check-weakened", TIS, '        "L" not in set(start_cond)\n        and "L" in trial_path.check_interfaces(interfaces)[:2]', '        "L" not in set(start_cond)\n        and "L" in trial_path.check_interfaces(interfaces)[:1]', "R-9.14"),
+    B("c09-crossing-check-wrong-interface", TIS, "    elif not trial_path.check_interfaces(interfaces)[-1][1]:", "    elif not trial_path.check_interfaces(interfaces)[-1][0]:", "R-9.14"),
+    K("c09-keep-crossing-check-merged", TIS, "    if set((\"R\", \"L\")) == set(start_cond):\n        pass\n    elif not trial_path.check_interfaces(interfaces)[-1][1]:", "    if (\n        set((\"R\", \"L\")) != set(start_cond)\n        and not trial_path.check_interfaces(interfaces)[-1][1]\n    ):", why="form of the independent tis refactoring"),
+    K("c09-keep-crossing-check-unpacked", TIS, "    elif not trial_path.check_interfaces(interfaces)[-1][1]:", "    elif trial_path.check_interfaces(interfaces)[2] != \"M\":"),
     B("c09-own-ensemble-weight-strict", TIS, "            cv.append(1.0 if intf_i <= path_max else 0.0)", "            cv.append(1.0 if path.success(intf_i) else 0.0)", "R-9.13", control=True, why="seeded C09_f (Path.success tests ordermax > interface strictly)"),
     B("c09-ase-one-frame-short", ASE, "        for i in range(self.subcycles * path.maxlen):", "        for i in range(self.subcycles * (path.maxlen - 1)):", "R-9.12", why="seeded C09_e"),
     B("c09-metropolis-counts-end-points", TIS, "            int((path.length - 2) / ens_set[\"rgen\"].random()) + 2,", "            int((path.length - 1) / ens_set[\"rgen\"].random()) + 2,", "R-9.11", control=True),
